@@ -226,7 +226,7 @@ def main(argv=None):
     for k in sorted(reached):
         if reached[k] != proved.get(k, 0):
             print(f"  label {k}: reached {reached[k]} proved {proved.get(k, 0)}")
-    if not a.only:
+    if not a.only and not os.environ.get("PVX_NO_EVIDENCE"):
         write_evidence(mod, prop, tier, seed, results, tot, solver_s, wall, reached, proved, witnesses_ok, replays,
                        violations_new, known_hit, inconclusive, pre)
     if violations_new:
